@@ -9,11 +9,11 @@ SPEC = {
     "assumptions": [
         "the meaning of conditions is the evaluator coq/Cond/Sem.v, hand-written from conditions.md / undefined_values.md / global_and_private.md; where these are silent it follows the implementation and says [undocumented] (64-bit wrap-around, truncated division, shift counts >= 64 / negative, P% = ceil(n*P/100), empty or undefined ranges make a for..in false, lexicographic string order, anchors of an `of` evaluated per item)",
         "floats, regular expressions (`matches`), modules, arrays/maps, .len(), int-as-bool casts, `bool == integer`, KB/MB suffixes, non-ASCII strings are not generated and not modelled",
-        "run-time quantifiers N < 0 and constant shapes rejected by the compiler are not generated; range loops are generated with at most a few hundred iterations (the model answers undefined beyond 100000)",
+        "run-time quantifiers N < 0 and constant shapes rejected by the compiler are not generated; range loops are generated with at most a few hundred iterations (neither emit.rs nor the model has an iteration cap; the model builds the list of all iterations)",
         "patterns are plain literal text patterns; their occurrences are computed by the model's own naive search (overlapping occurrences included), not taken from the implementation",
         "rule sets use consecutive blocks of distinct namespaces; conditions that make the implementation panic (WASM traps, property C05) are counted in the distribution and excluded",
         "the tie between Sem.v and the compiler/scanner is differential (K over generated rule sets), except for the operator binding powers, which are regenerated from parser/src/ast/cst2ast.rs and conditions.md on every run",
-        "architecture layer: for every generated rule the IR dumped by the compiler is compared node by node with Cond/IrTree.v (all rules), and the emitted WebAssembly instruction by instruction with Cond/Emit.v (rules whose folded condition is in the fragment `tyof`: no strings, no percentage quantifiers, no for..of / tuples, `of` only un-anchored over pattern sets); emit_correct is proved for the part of that fragment without for-loops (frag1: includes n-ary and/or, with, any/all/N of <set>) and evaluated on the machine for the for..in loops",
+        "architecture layer: for every generated rule the IR dumped by the compiler is compared node by node with Cond/IrTree.v (all rules), and the emitted WebAssembly instruction by instruction with Cond/Emit.v (rules whose folded condition is in the fragment `tyof`: no strings, no percentage quantifiers, no for..of / tuples, `of` only un-anchored over pattern sets); emit_correct is proved for that whole fragment, for..in loops with all modelled quantifier arms included; the machine run of the same code is still evaluated by K",
     ],
     "trusted_base": ["harness/src/wasm_read.rs: decoder of the WebAssembly binary written by Compiler::emit_wasm_file (unknown opcode = error); harness/src/bin/c02.rs rule_blocks / wasm_coq: finds every rule's block through the rule_match(<rule id>) call that follows it, resolves call targets and globals through the import section, keeps only the offset of a memarg and the arity of a block type",
                      "hook lib/src/verif_c02.rs (Rules::verif_c02_pattern_ids): the PatternId of every declared pattern, which the emitted code uses instead of the position in the rule",
